@@ -7,6 +7,15 @@ namespace RG
 
 abbrev Str := List Char
 
+/-- stable insertion sort (structurally recursive, so the kernel can evaluate it) -/
+def insertSorted {α} (le : α → α → Bool) (x : α) : List α → List α
+  | [] => [x]
+  | y :: ys => if le x y then x :: y :: ys else y :: insertSorted le x ys
+def insertionSort {α} (le : α → α → Bool) : List α → List α
+  | [] => []
+  | x :: xs => insertSorted le x (insertionSort le xs)
+
+
 def pow2 (e : Int) : Rat :=
   if e ≥ 0 then ((2 ^ e.toNat : Nat) : Rat) else 1 / ((2 ^ (-e).toNat : Nat) : Rat)
 
